@@ -695,7 +695,12 @@ class simplify_chained_calls(FuncADLNodeTransformer):
         so the substituted expression keeps referring to what it referred to before.
         """
         names_in_substitutions = self._arg_stack.names_in_definitions()
-        if any(a.arg in names_in_substitutions for a in node.args.args):
+        l_args = node.args
+        # (keyword-only parameters are how the lambda is called: they keep their names)
+        renamable = [a.arg for a in l_args.posonlyargs + l_args.args] + [
+            a.arg for a in (l_args.vararg, l_args.kwarg) if a is not None
+        ]
+        if any(name in names_in_substitutions for name in renamable):
             # Rename in the lambda itself, before anything is substituted: what gets
             # substituted can be visited again and must not be touched by the renaming.
             node = make_args_unique(node)
